@@ -25,6 +25,7 @@ struct Ctx {
   dispenso::ThreadPool* pool = nullptr;
   int outstanding = 0;
   const char* phase = "run";
+  int inWait = 0; // threads currently inside a wait()/waiting parallel_for of a producer
 };
 static Ctx* g;
 
@@ -61,6 +62,15 @@ static void hangDesc(char* buf, size_t n) {
   }
   snprintf(buf, n, "[phase=%s tags=%d stranded=%d(%s) running=%d]", g->phase, tagCount(), notStarted, apiName(firstApi),
            running);
+}
+
+static void hangKey(char* buf, size_t n) {
+  // which producer's wait it is (and which task kind is stranded) depends on thread timing; the
+  // stable part of the key is whether some task-set wait / waiting loop never returned
+  if (!strcmp(g->phase, "resize") || !strcmp(g->phase, "~ThreadPool") || !strcmp(g->phase, "setSignalingWake"))
+    snprintf(buf, n, "%s-never-returns", g->phase);
+  else
+    snprintf(buf, n, "%s", g->inWait > 0 ? "taskset-wait-never-returns" : "no-wait-in-progress");
 }
 
 static void checkAllOnce(const char* when) {
@@ -126,7 +136,9 @@ static void taskSetProducer(int rounds) {
     }
     int last = tagCount();
     g->phase = "TaskSet::wait";
+    g->inWait++;
     ts.wait();
+    g->inWait--;
     g->phase = "run";
     for (int i = first; i < last; ++i) {
       int api = tag(i).api;
@@ -154,7 +166,9 @@ static void ctsProducer(int rounds) {
       }
     }
     g->phase = "CTS::wait";
+    g->inWait++;
     ts.wait();
+    g->inWait--;
     g->phase = "run";
   }
 }
@@ -172,6 +186,7 @@ static void parForProducer(int rounds) {
     dispenso::ParForOptions opts;
     opts.defaultChunking = chance(1, 2) ? dispenso::ParForChunking::kStatic : dispenso::ParForChunking::kAuto;
     g->phase = "parallel_for";
+    g->inWait++;
     dispenso::parallel_for(
         ts, 0, n,
         [base](int i) {
@@ -184,6 +199,7 @@ static void parForProducer(int rounds) {
           g->outstanding--;
         },
         opts);
+    g->inWait--;
     g->phase = "run";
   }
 }
@@ -196,6 +212,7 @@ static void wlResize() {
   g = &ctx;
   tagsReset();
   sim_set_hang_describer(hangDesc);
+  sim_set_hang_keyer(hangKey);
   int nThreads = range(1, 5);
   static const int mults[] = {32, 1, 2};
   int mult = oneOf(mults);
@@ -266,6 +283,7 @@ static void wlAccounting() {
   g = &ctx;
   tagsReset();
   sim_set_hang_describer(hangDesc);
+  sim_set_hang_keyer(hangKey);
   int nThreads = range(1, 5);
   static const int mults[] = {32, 1, 2};
   int mult = oneOf(mults);
@@ -345,6 +363,7 @@ static void wlShutdown() {
   g = &ctx;
   tagsReset();
   sim_set_hang_describer(hangDesc);
+  sim_set_hang_keyer(hangKey);
   int nThreads = range(1, 8);
   bool poll = chance(1, 5);
   int load = (int)pick(4); // 0 idle, 1 some short tasks, 2 long sleeping bodies, 3 continuous trickle
